@@ -226,6 +226,30 @@ func c06Strata() []*gast.Grammar {
 		}
 		return mk(rules...)
 	}
+	_ = nest
+	return append(c06StrataOld(), []*gast.Grammar{
+		// a repetition directly over a terminal, entered at every start offset of one long run (a
+		// repetition that evaluates its operand without consulting the cache re-reads the run each time)
+		mk(r("S", gast.C(gast.Ref("W"), gast.S(gast.Dot(), gast.Ref("S")), gast.NotE(gast.Dot()))), r("W", gast.S(gast.Star(gast.Cl(&gast.ClassSpec{Ranges: [][2]rune{{'a', 'z'}}})), gast.L("!")))),
+		mk(r("S", gast.C(act(gast.S(gast.Plus(gast.L("a")), gast.L(";")), 1), gast.S(gast.Dot(), gast.Ref("S")), gast.NotE(gast.Dot())))),
+	}...)
+}
+
+func c06StrataOld() []*gast.Grammar {
+	mk := func(rules ...*gast.Rule) *gast.Grammar { return &gast.Grammar{Rules: rules} }
+	r := func(n string, e *gast.Expr) *gast.Rule { return &gast.Rule{Name: n, Expr: e} }
+	act := func(e *gast.Expr, id int) *gast.Expr { return gast.A(e, id, mon.Spec{}) }
+	nest := func(depth int) *gast.Grammar {
+		var rules []*gast.Rule
+		for i := 0; i < depth; i++ {
+			next := gast.L("a")
+			if i+1 < depth {
+				next = gast.Ref(fmt.Sprintf("N%d", i+1))
+			}
+			rules = append(rules, r(fmt.Sprintf("N%d", i), act(gast.C(gast.S(gast.Lab("a", next.Clone()), gast.L("x")), gast.S(gast.Lab("a", next.Clone()), gast.L("y")), gast.Lab("b", next.Clone())), i+1)))
+		}
+		return mk(rules...)
+	}
 	return []*gast.Grammar{
 		// a code predicate whose verdict depends on a label, reached at one offset with two different label values
 		mk(r("S", gast.C(gast.S(gast.Ref("A"), gast.L("z")), gast.S(gast.L("x"), gast.Ref("A")), gast.Star(gast.Dot()))),
